@@ -76,6 +76,7 @@ func genRandom(r *kernel.Rand) *kernel.Scenario {
 	c["reg_max_us"] = int64([]int{5, 200, 1500}[r.Intn(3)])
 	c["ev_max_us"] = int64([]int{5, 300, 2500}[r.Intn(3)])
 	c["async_max_us"] = int64([]int{2, 30, 1200}[r.Intn(3)])
+	c["race_start_stop"] = int64(r.Weighted([]int{2, 1})) // epilogue: StopWatching(parent) races StartWatchingSubChannel
 	asyncP := []float64{0, 0.2, 0.6}[r.Intn(3)]
 	gaps := [][]int{
 		{0, 0, 1, 3, 20},                       // bursts
